@@ -223,10 +223,21 @@ func storeContractRun(id int, seed int64, scratch string, out *json.Encoder) {
 		}
 		e := storeEv{Op: "store", Name: i, Len: len(payloads[i]), Dig: digestOf(payloads[i]), Inject: inject, Transient: transient}
 		target := p
+		away := false
 		if inject && backend == "file" {
-			target = filep.NewPersistForPath(filepath.Join(dir, "does-not-exist"))
+			if rng.Intn(2) == 0 {
+				target = filep.NewPersistForPath(filepath.Join(dir, "does-not-exist"))
+			} else if os.Rename(dir, dir+".away") == nil {
+				// the same store object, its directory gone for the moment (the temporary file cannot be created)
+				away = true
+			} else {
+				target = filep.NewPersistForPath(filepath.Join(dir, "does-not-exist"))
+			}
 		}
 		e.Res, e.Msg = guard(func() error { return target.Store(ctx, names[i], payloads[i]) })
+		if away {
+			os.Rename(dir+".away", dir)
+		}
 		if fs != nil {
 			fs.failTransient = 0
 		}
